@@ -53,9 +53,9 @@ mutant('c02_line_end_no_group', 'C02', ['C02'], 'match_at_line_end uses str(self
        'MatchAtLineEnd over an alternation',
        [(PRE, '        return __class__(f"{self._assert_conditional_group()}$", escape=False)', '        return __class__(f"{self}$", escape=False)')])
 # ---- C03 / C11
-mutant('c03_repr_keeps_double_backslash', 'C03', ['C03', 'C11'], '__repr__ no longer folds doubled backslashes (exported text differs from the pattern)',
-       'any pattern containing a backslash; compiled vs uncompiled path',
-       [(PRE, '        return _re.sub(r"\\\\\\\\", r"\\\\", repr(self.__pattern)[1:-1])', '        return repr(self.__pattern)[1:-1]')])
+mutant('c03_repr_keeps_double_backslash', 'C03', ['C03', 'C11'], '__repr__ keeps the backslash in front of an escaped control character (exported text is another regex)',
+       'a pattern with a backslash directly before a newline / tab / other non-printable character',
+       [(PRE, '            return match.group(0) if c.isprintable() else repr(c)[1:-1]', '            return match.group(0) if c.isprintable() else match.group(0)[:-1] + repr(c)[1:-1]')])
 # ---- C04
 mutant('c04_inverted_bounds', 'C04', ['C04', 'C03'], 'at_least_at_most accepts m = n - 1 (emits {3,2})', 'inverted bounds that differ by one',
        [(PRE, '        elif m < n:\n            message = "The value of parameter \\"m\\" can\'t be"', '        elif m < n - 1:\n            message = "The value of parameter \\"m\\" can\'t be"')])
